@@ -33,3 +33,8 @@ func VerifApplyMiddlewares(final httpsrc.Handler, prio []int, fns []MiddlewareFu
 func VerifNewMiddleware(v data.FuncStmt, ctx data.Context) (MiddlewareFunc, error) {
 	return newMiddleware(v, ctx)
 }
+
+// VerifWithErrorHandler wraps next exactly as a server with an onError callback does.
+func VerifWithErrorHandler(fn data.FuncStmt, ctx data.Context, next httpsrc.Handler) httpsrc.Handler {
+	return withErrorHandler(&ServerClass{errorHandler: &errorHandlerSlot{fn: fn, ctx: ctx}}, next)
+}
